@@ -274,3 +274,66 @@ _jobs_c14b = jobs
 
 def jobs(tier):
     return _jobs_c14b(tier) + string_jobs()
+
+
+AR = 'Array__unsigned_int'
+QAR = 'Qentem::Array<unsigned int>'
+AGH = [('unsigned int', 'g_k'), ('unsigned int', 'g_old'), ('unsigned int', 'g_c')]
+
+
+def ar_wf(s='self', alloc=True):
+    if alloc:
+        return ['__CPROVER_is_fresh(%s, sizeof(*%s))' % (s, s), '%s->capacity_ != 0 && %s->capacity_ <= 0x100000u' % (s, s),
+                '__CPROVER_is_fresh(%s->storage_, (__CPROVER_size_t)%s->capacity_ * sizeof(unsigned int))' % (s, s), '%s->index_ <= %s->capacity_' % (s, s)]
+    return ['__CPROVER_is_fresh(%s, sizeof(*%s))' % (s, s), '%s->capacity_ == 0 && %s->storage_ == 0 && %s->index_ == 0' % (s, s, s)]
+
+
+def ar_ens(s='self'):
+    return ['%s->index_ <= %s->capacity_' % (s, s),
+            '%s->capacity_ != 0 ==> __CPROVER_w_ok(%s->storage_, (__CPROVER_size_t)%s->capacity_ * sizeof(unsigned int))' % (s, s, s)]
+
+
+def array_copy_callee():
+    """Memory::Copy as used by Array<unsigned int>: byte granularity; the observed element g_k maps to four byte indices, so the callee is
+    given the element-wise meaning directly (sound consequence of the byte contract enforced in the Memory::Copy jobs)"""
+    return dict(requires=['size == 0 || (__CPROVER_w_ok(to, size) && __CPROVER_r_ok(from, size))', 'size == 0 || !__CPROVER_same_object(to, from)', 'size % 4 == 0'],
+                ensures=['g_c < size / 4 ==> ((const unsigned int *)to)[g_c] == ((const unsigned int *)from)[g_c]'],
+                assigns=['size != 0: __CPROVER_object_upto(to, size)'])
+
+
+def array_jobs():
+    out = []
+    O_IX = '__CPROVER_old(self->index_)'
+    FR = ['__CPROVER_object_whole(self)', '__CPROVER_object_whole(self->storage_)']
+    mk = lambda name, qfn, fn, spec, clause, **kw: dict(dict(name='Array<unsigned int>.%s' % name, unit=LC.UNIT, fn=fn, roots=[QAR + '::' + qfn],
+                                                             specs={fn: dict(spec, obj_buffers=[('o_self.storage_', 'o_self.capacity_', 'unsigned int', 'o_self.index_')]), COPY: array_copy_callee()},
+                                                             replace=[COPY], ghosts=AGH, solver='cadical', timeout=600, objbits=10, must_have=['postcondition'], clause=clause, cex_K=3), **kw)
+    keep = 'g_k < %s ==> self->storage_[g_k] == g_old' % O_IX
+    oldreq = 'g_k < self->index_ ==> g_old == self->storage_[g_k]'
+    out.append(mk('append-item', 'operator+=(unsigned int &&)', AR + '_op_add_assign__unsigned_int_rr',
+                  dict(requires=ar_wf() + ['__CPROVER_is_fresh(item, sizeof(*item))', oldreq, 'g_c == g_k'],
+                       ensures=ar_ens() + ['self->index_ == %s + 1' % O_IX, 'self->storage_[%s] == __CPROVER_old(*item)' % O_IX, keep],
+                       assigns=FR + ['*item'], frees=['self->storage_']),
+                  'append of one item: size grows by one, the item is last, earlier items undisturbed'))
+    src_wf = ['__CPROVER_is_fresh(src, sizeof(*src))', 'src->capacity_ != 0 && src->capacity_ <= 0x100000u',
+              '__CPROVER_is_fresh(src->storage_, (__CPROVER_size_t)src->capacity_ * sizeof(unsigned int))', 'src->index_ <= src->capacity_']
+    # append of an array: the modular proof (pointer loop variables over two symbolic-size objects) runs out of memory at 14 GB, so this is a
+    # BOUNDED stand-in: harness mode, capacities <= 4, one run per source size 0..3, all contents symbolic
+    sp = dict(requires=ar_wf() + src_wf + [oldreq],
+              ensures=ar_ens() + ['self->index_ == %s + src->index_' % O_IX, keep,
+                                  '(g_k >= %s && g_k < self->index_) ==> self->storage_[g_k] == src->storage_[g_k - %s]' % (O_IX, O_IX)],
+              obj_buffers=[('o_self.storage_', 'o_self.capacity_', 'unsigned int', 'o_self.index_'), ('o_src.storage_', 'o_src.capacity_', 'unsigned int', 'o_src.index_')])
+    fn = AR + '_op_add_assign__const_Array__unsigned_int_r'
+    out.append(dict(name='Array<unsigned int>.append-array.bounded', unit=LC.UNIT, fn=fn, roots=[QAR + '::operator+=(const Qentem::Array<unsigned int> &)'], mode='harness',
+                    specs={fn: sp}, ghosts=AGH, solver='cadical', timeout=300, objbits=9, sweep=('o_src.index_', [0, 1, 2, 3]), sweep_par=4, weight=4,
+                    harness_K=4, harness_unwind=20, must_have=['assertion'], cex_K=4, cex_unwind=20,
+                    bounded='capacities <= 4, source sizes 0..3 (one run each), contents symbolic',
+                    clause='append of an array: size is the sum, earlier items undisturbed, appended items equal the source in order'))
+    return out
+
+
+_jobs_c14c = jobs
+
+
+def jobs(tier):
+    return _jobs_c14c(tier) + array_jobs()
